@@ -89,6 +89,8 @@ pub fn run(sc: &Value) -> Value {
         "populated" => {
             std::fs::create_dir_all(&dest).unwrap();
             std::fs::write(dest.join("existing"), b"old").unwrap();
+            std::fs::create_dir_all(dest.join("p")).unwrap();
+            std::fs::write(dest.join("p/f"), b"precious").unwrap();
         }
         "only-symlinks" => {
             std::fs::create_dir_all(&dest).unwrap();
